@@ -704,7 +704,7 @@ impl Property for C02 {
         }
     }
     fn rule(&self) -> &'static str {
-        "one case = 1-3 generated projects with varied resource declarations (files, nested directories, extension filters, >1 KiB files, command resources, outputs as files / filtered directories / commands, X.output chains across projects) and a history of 2-5 invocations separated by 0-4 edits (rewrite, append, touch, rewrite keeping the mtime, delete, create sibling, rename, same-length change beyond byte 1024, output edited, command output changed) and occasional state-file corruption; each invocation under its own seeded schedule. Oracle: every observed skip must be justified by the model's record (taken at the target's last successful completion) and the model's comparison with the state at decision time. distinct_nontrivial = distinct order hashes among invocations in which a target with a model record was evaluated"
+        "one case = 1-3 generated projects with varied resource declarations (files, nested directories, extension filters, >1 KiB files, command resources, outputs as files / filtered directories / commands, X.output chains across projects) and a history of 2-5 invocations separated by 0-4 edits (rewrite, append, touch, rewrite keeping the mtime, delete, create sibling, rename, same-length change beyond byte 1024, output edited, command output changed - including outputs that are not valid UTF-8, that differ only in trailing white space, or that exceed a pipe buffer) and occasional state-file corruption; declared directories may hold links to files kept elsewhere, upper-case extension filters, sibling paths with a common textual prefix, an output written inside the target's own input directory; the project directory is spelled differently (`dir`, `dir/.`, `dir/../dir`) from one invocation to the next; each invocation under its own seeded schedule. Oracle: every observed skip must be justified by the model's record (taken at the target's last successful completion) and the model's comparison with the state at decision time. distinct_nontrivial = distinct order hashes among invocations in which a target with a model record was evaluated"
     }
     fn assumptions(&self) -> Vec<&'static str> {
         vec!["mtimes of workload and script writes come from the simulator's logical clock (one tick per write)", "race-free layouts: a file is written by at most one target"]
@@ -1043,7 +1043,7 @@ impl Property for C12 {
         }
     }
     fn rule(&self) -> &'static str {
-        "one case = 1-3 projects whose output directories are decorated with files not matching the extension filter, nested directories and symbolic links (to files, to directories, dangling, pointing outside the output) + a history of invocations containing `--clean` alone, `--clean T...` and plain runs, with edits in between. Oracle after every invocation: recursive tree snapshot (names, types, link targets, contents, mtimes) after vs before equals the model's deletion set (declared output paths, or only the matching files beneath them; recorded state of the cleaned scope) plus the effects of the scripts that ran; targets in the cleaned scope are never skipped. In a third of the cases zinoma is additionally killed at 12 evenly spaced decision indices inside the last --clean invocation: whatever was deleted so far must lie inside the deletion set and nothing else may differ. distinct_nontrivial = distinct order hashes among --clean invocations, completed or killed"
+        "one case = 1-3 projects whose output directories are decorated with files not matching the extension filter, nested directories and symbolic links (to files, to directories, dangling, pointing outside the output) + a history of invocations containing `--clean` alone, `--clean T...` and plain runs, with edits in between. Oracle after every invocation: recursive tree snapshot (names, types, link targets, contents, mtimes) after vs before equals the model's deletion set (declared output paths, or only the matching files beneath them; recorded state of the cleaned scope) plus the effects of the scripts that ran; targets in the cleaned scope are never skipped. In a third of the cases zinoma is additionally killed at 12 evenly spaced decision indices inside the last --clean invocation: whatever was deleted so far must lie inside the deletion set and nothing else may differ. Declarations also include `[]` / `['']` filters, overlapping or repeated paths under one filter, one directory declared twice with different filters, declared output paths that are symbolic links to files or directories kept elsewhere (with and without a filter: the link may go, never what it points to), long target names with a common prefix. distinct_nontrivial = distinct order hashes among --clean invocations, completed or killed"
     }
     fn assumptions(&self) -> Vec<&'static str> {
         vec!["a declared output path that is itself a symbolic link: cleaning removes the link only (what std's remove_file / remove_dir_all do with a link)"]
